@@ -1,5 +1,150 @@
-From Coq Require Import Reals Lra.
-From Celer Require Import Base.Num Base.NumR C08.PropagatorModel.
-Theorem C08_placeholder : (1 + 1 = 2)%R.
-Proof. lra. Qed.
-Print Assumptions C08_placeholder.
+(** * C08 property theorems — statements only; proofs live in
+    C08/PropagatorProofs.v, C08/DriverProofs.v, C08/HelixProofs.v.
+    Each theorem is closed by [exact] and followed by [Print Assumptions]. *)
+From Coq Require Import Reals ZArith List.
+From Coquelicot Require Import Coquelicot.
+From Celer Require Import Base.Num Base.NumR Base.Vec3
+  C08.PropagatorModel C08.PropagatorProofs C08.DriverModel C08.DriverProofs C08.Helix C08.HelixProofs.
+Local Open Scope R_scope.
+
+(** [prop_contracts] (C08/PropagatorProofs.v) = valid options, step > 0, the
+    driver's contract (0 < substep.step <= remaining, 0 < |chord| <= substep.step,
+    non-zero momentum) and the geometry's contract (0 <= distance <= limit,
+    positive off a boundary; move_internal clears / move_to_boundary sets the
+    on-boundary state, set_dir and find_next_step keep it).
+    [post] (ibid.) = 0 < distance <= step; looping <-> (substep budget spent and
+    distance < step); returned flag = geometry's on-boundary state; the direction
+    written is a unit vector; and by outcome: looping / boundary (move_to_boundary
+    issued, ODE position = geometry position) / full step (distance = step,
+    geometry moved internally to the ODE position) / bumped (started on a
+    boundary, no progress, distance = min(bump, step)). *)
+Theorem C08_propagate_post :
+  forall D G advance g_pos g_on_boundary g_set_dir g_find_next g_move_internal g_move_to_boundary o step,
+  prop_contracts D G advance g_on_boundary g_set_dir g_find_next g_move_internal g_move_to_boundary o step ->
+  forall fuel d g st r, 0 < norm (o_mom st) ->
+    propagate D G advance g_pos g_on_boundary g_set_dir g_find_next g_move_internal
+      g_move_to_boundary o step fuel d g st = Some r ->
+    post D G g_pos g_on_boundary g_set_dir g_move_internal g_move_to_boundary o step g r.
+Proof. exact propagate_post. Qed.
+Print Assumptions C08_propagate_post.
+
+(** the loop runs at most max_substeps*(K+1) + K + H + 1 times where
+    step <= K*delta_intersection and step <= minimum_substep * 2^H *)
+Theorem C08_propagate_terminates :
+  forall D G advance g_pos g_on_boundary g_set_dir g_find_next g_move_internal g_move_to_boundary o step,
+  prop_contracts D G advance g_on_boundary g_set_dir g_find_next g_move_internal g_move_to_boundary o step ->
+  forall (K H fuel : nat) d g st,
+    step <= INR K * dint o -> step <= minsub o * 2 ^ H ->
+    (max_substeps o * (K + 1) + K + H < fuel)%nat ->
+    propagate D G advance g_pos g_on_boundary g_set_dir g_find_next g_move_internal
+      g_move_to_boundary o step fuel d g st <> None.
+Proof. exact propagate_terminates. Qed.
+Print Assumptions C08_propagate_terminates.
+
+(** the propagator writes only a direction: the unit vector of the ODE momentum *)
+Theorem C08_momentum_magnitude_invariant :
+  forall D G advance g_pos g_on_boundary g_set_dir g_find_next g_move_internal g_move_to_boundary
+         o step fuel d g st (r : presult (T:=R) D G),
+  propagate D G advance g_pos g_on_boundary g_set_dir g_find_next g_move_internal
+    g_move_to_boundary o step fuel d g st = Some r ->
+  r_dir r = make_unit_vector (o_mom (r_state r)) /\
+  exists g', r_g r = g_set_dir g' (r_dir r)
+             \/ r_g r = g_move_internal (g_set_dir g' (r_dir r)) (o_pos (r_state r)).
+Proof. exact propagate_dir. Qed.
+Print Assumptions C08_momentum_magnitude_invariant.
+
+(** ... and the analytic stepper conserves |p| exactly *)
+Theorem C08_helix_momentum_invariant : forall coeffi bz step beg,
+  0 < norm (o_mom beg) ->
+  norm (o_mom (s_end (zhelix_step coeffi bz step beg))) = norm (o_mom beg) /\
+  norm (o_mom (s_mid (zhelix_step coeffi bz step beg))) = norm (o_mom beg).
+Proof. exact zhelix_momentum_invariant. Qed.
+Print Assumptions C08_helix_momentum_invariant.
+
+(** the closed form [ex_*] solves x' = u, u' = kappa (u_y, -u_x, 0) with the
+    given initial values *)
+Theorem C08_helix_closed_form_solves_ode : forall kappa p0 u0, kappa <> 0 -> forall s,
+  is_derive (ex_x kappa p0 u0) s (ex_ux kappa u0 s) /\ is_derive (ex_y kappa p0 u0) s (ex_uy kappa u0 s)
+  /\ is_derive (ex_z p0 u0) s (vz u0)
+  /\ is_derive (ex_ux kappa u0) s (kappa * ex_uy kappa u0 s)
+  /\ is_derive (ex_uy kappa u0) s (- kappa * ex_ux kappa u0 s)
+  /\ ex_x kappa p0 u0 0 = vx p0 /\ ex_y kappa p0 u0 0 = vy p0 /\ ex_z p0 u0 0 = vz p0
+  /\ ex_ux kappa u0 0 = vx u0 /\ ex_uy kappa u0 0 = vy u0.
+Proof. exact exact_solves_ode. Qed.
+Print Assumptions C08_helix_closed_form_solves_ode.
+
+(** with the gyration centre on the z axis and positive helicity the stepper's
+    end state is that solution, for every step length *)
+Theorem C08_helix_endpoint_exact : forall kappa step radius beg rhs,
+  kappa <> 0 -> radius = - / kappa ->
+  vx (o_pos beg) = - vy (o_pos rhs) / kappa -> vy (o_pos beg) = vx (o_pos rhs) / kappa ->
+  let e := zhelix_move step radius false beg rhs in
+  vx (o_pos e) = ex_x kappa (o_pos beg) (o_pos rhs) step /\
+  vy (o_pos e) = ex_y kappa (o_pos beg) (o_pos rhs) step /\
+  vz (o_pos e) = ex_z (o_pos beg) (o_pos rhs) step /\
+  vx (o_mom e) = ex_ux kappa (o_pos rhs) step * norm (o_mom beg) /\
+  vy (o_mom e) = ex_uy kappa (o_pos rhs) step * norm (o_mom beg) /\
+  vz (o_mom e) = vz (o_pos rhs) * norm (o_mom beg).
+Proof. exact zhelix_move_exact. Qed.
+Print Assumptions C08_helix_endpoint_exact.
+
+(** independence of subdivision: helix(s1 + s2) = helix s2 . helix s1 *)
+Theorem C08_helix_compose : forall s1 s2 radius neg beg rhs rhs',
+  radius <> 0 -> norm (o_pos rhs) = 1 ->
+  o_pos rhs' = V3 (vx (rotz (del_phi s1 radius neg) (o_pos rhs)))
+                  (vy (rotz (del_phi s1 radius neg) (o_pos rhs))) (vz (o_pos rhs)) ->
+  zhelix_move s2 radius neg (zhelix_move s1 radius neg beg rhs) rhs'
+  = zhelix_move (s1 + s2) radius neg beg rhs.
+Proof. exact zhelix_move_compose. Qed.
+Print Assumptions C08_helix_compose.
+
+(** without the on-axis hypothesis the stepper is wrong: from the origin it
+    never moves in x,y (finding F-C08-1a) *)
+Theorem C08_helix_endpoint_offaxis_refuted :
+  exists (kappa step radius : R) (beg rhs : ode R),
+    kappa <> 0 /\ radius = - / kappa /\ norm (o_pos rhs) = 1 /\ 0 < step /\
+    vx (o_pos (zhelix_move step radius false beg rhs)) = vx (o_pos beg) /\
+    vy (o_pos (zhelix_move step radius false beg rhs)) = vy (o_pos beg) /\
+    ex_y kappa (o_pos beg) (o_pos rhs) step <> vy (o_pos beg).
+Proof. exact zhelix_offaxis_refuted. Qed.
+Print Assumptions C08_helix_endpoint_offaxis_refuted.
+
+(** with negative helicity z runs backwards (finding F-C08-1b) *)
+Theorem C08_helix_negative_helicity_refuted :
+  exists (step radius : R) (beg rhs : ode R),
+    0 < radius /\ 0 < step /\ 0 < vz (o_pos rhs) /\
+    vz (o_pos (zhelix_move step radius true beg rhs)) < vz (o_pos beg).
+Proof. exact zhelix_negative_helicity_z_refuted. Qed.
+Print Assumptions C08_helix_negative_helicity_refuted.
+
+(** find_next_chord: the trial only shrinks, by at most 1/2 per trial; when the
+    search succeeds the returned state passed the sagitta test at the returned
+    length; when the max_nsteps budget runs out the returned length is SHORTER
+    than the length the returned state was integrated over (finding F-C08-4).
+    Partial: the bound holds for chords accepted by a successful search only. *)
+Theorem C08_chord_sagitta_bounded_partial :
+  forall (S : Type) (stepper : S -> R -> ode R -> S * sres R) (o : dopts R),
+  0 < delta_chord o -> forall s step st, 0 < step ->
+  let cs := snd (find_next_chord S stepper o s step st) in
+  0 < fc_step cs <= step
+  /\ step * (/ 2) ^ (Datatypes.S (pred (max_nsteps o))) <= fc_step cs
+  /\ fc_state cs = s_end (fc_last cs)
+  /\ (fc_ok cs = true ->
+        fc_tried cs = fc_step cs /\
+        distance_chord (o_pos st) (o_pos (s_mid (fc_last cs))) (o_pos (s_end (fc_last cs)))
+          <= delta_chord o + dchord_tol)
+  /\ (fc_ok cs = false -> fc_step cs < fc_tried cs)
+  /\ exists s0, fc_last cs = snd (stepper s0 (fc_tried cs) st).
+Proof. intros S stepper o Hd s step st Hs. exact (fnc_spec S stepper o Hd (pred (max_nsteps o)) s step st Hs). Qed.
+Print Assumptions C08_chord_sagitta_bounded_partial.
+
+(** FieldDriver::advance returns 0 < step <= requested for every stepper, and
+    keeps its cached chord estimate positive *)
+Theorem C08_driver_step_in_range :
+  forall (S : Type) (stepper : S -> R -> ode R -> S * sres R) (o : dopts R),
+  0 < minimum_step o -> 0 < delta_chord o -> 0 < max_stepping_decrease o < 1 ->
+  forall (mc : option R) s step st, 0 < step -> (forall c, mc = Some c -> 0 < c) ->
+  let res := advance S stepper o mc s step st in
+  0 < d_step (snd res) <= step /\ (forall c, fst (fst res) = Some c -> 0 < c).
+Proof. exact advance_range. Qed.
+Print Assumptions C08_driver_step_in_range.
